@@ -4,6 +4,6 @@ CONSTANTS Chans = {3} Rows = {0, 1, 2, 3, 4, 5, 6, 7, 8, 9, 10, 11, 12, 13, 14} 
   Kinds = {"RU", "CR", "PAC", "EDM", "TEXT"}
   Mix <- NoMix Bursts <- NoBurst
 SPECIFICATION GSpec
-VIEW gview
+VIEW gview2
 ACTION_CONSTRAINT TDump
 CHECK_DEADLOCK FALSE
